@@ -372,7 +372,7 @@ def run(ctx: Ctx):
     ctx.include(c10.run, {"C10-R1", "C10-R2"}, "C06-R6c",
                 "requests are routed only to connections in a ready state (filter and selection "
                 "callback of route_request)", floor=4,
-                constructs=lambda c: "realm" not in c)      # (which realm is served is C10's business)
+                constructs=lambda c: "typed-avp-list" not in c)   # (a recorded finding of C10)
 
 
 def _receive_cer(ctx: Ctx, model, nc, P, K):
